@@ -127,3 +127,16 @@ Theorem C02_debit_exact : forall cfg s c, Inv cfg s -> In (height s, c) (newq s)
                     + (if eqb a Escrow then issue_fees d else 0)).
 Proof. exact TraceSettle.debit_exact. Qed.
 Print Assumptions C02_debit_exact.
+
+(* trace form of the debit statement: every debit of the log is immediately followed (newer,
+   i.e. to its left: the log is newest first) by the issue events of one batch (c, n) of its
+   context, all for the debited consumer and of the block h of the batch start, whose fees
+   sum to the debit, and then by that batch's EvBatchStart (issue_fees = sum of the fees of
+   the EvIssue events of a list) *)
+Theorem C02_debit_matches_issue : forall cfg s l1 l2 c cons amt, wf_cfg cfg -> Reach cfg s ->
+  log s = l1 ++ EvDebit c cons amt :: l2 ->
+  exists rest n h evs, l1 = rest ++ EvBatchStart c n h (len evs) :: evs
+    /\ Forall (fun e => exists i p f, e = EvIssue (c, n, h, i) p cons f) evs
+    /\ issue_fees evs = amt.
+Proof. exact TraceSettle.debit_matches_issue. Qed.
+Print Assumptions C02_debit_matches_issue.
